@@ -41,3 +41,14 @@ func (v *VerifStream) HandlePacket(topic lib.Topic, eof bool, bz []byte) (delive
 }
 
 func (v *VerifStream) AssemblerLen() int { return len(v.s.msgAssembler) }
+
+// VerifConn returns the multiplexed connection to the peer with the given public key (nil if not connected)
+func (p *P2P) VerifConn(publicKey []byte) *MultiConn {
+	p.PeerSet.mux.RLock()
+	defer p.PeerSet.mux.RUnlock()
+	peer, err := p.PeerSet.get(publicKey)
+	if err != nil || peer == nil {
+		return nil
+	}
+	return peer.conn
+}
